@@ -1,4 +1,5 @@
 import CpProofs.HelloBase
+import CpProofs.Timestamp
 /-
   Laws of the hello extension classes with structured bodies (CpModel/Tls/Ext2.lean):
   server_name, ALPN / ALPS, NPN (server), status_request, key_share (four classes), token_binding,
@@ -364,13 +365,14 @@ theorem ctParams_numSize : (vp Gen.vec_CtExtensions).numSize = 2 ∧ (vp Gen.vec
   decide +kernel
 
 /-- the SCT values a caller can construct and that survive compose → parse: a version of the
-enumeration, a 32-byte log id, a timestamp whose seconds fit 32 bits (`parse_timestamp` masks them),
+enumeration, a 32-byte log id, a timestamp (milliseconds) not later than 9999-12-31T23:59:59.999Z — the
+instants `datetime` carries; this excludes the all-ones "no timestamp" value of the 8-byte field —,
 extensions / signature inside their bounds, an algorithm of the table, the blob inside 16 bits -/
 structure SctWf (s : Sct) : Prop where
   version : s.version ∈ Gen.CtVersion.memberCodes
   versionFits : s.version < 256 ^ 1
   log : s.log.length = 32
-  timestamp : s.timestamp < 2 ^ 32 * 1000
+  timestamp : s.timestamp / 1000 ≤ maxEpochSeconds
   extMin : (vp Gen.vec_CtExtensions).min ≤ s.extensions.length
   extMax : s.extensions.length ≤ (vp Gen.vec_CtExtensions).max
   algorithm : s.algorithm < Gen.TlsSignatureAndHashAlgorithm.codes.length
@@ -381,19 +383,21 @@ structure SctWf (s : Sct) : Prop where
 /-- composed size of one SCT: the 2-byte blob length and the blob -/
 def sctSize (s : Sct) : Nat := 2 + (47 + s.extensions.length + s.signature.length)
 
-theorem parseTimestamp_ms_enc {t : Nat} (ht : t < 2 ^ 32 * 1000) (r : Bytes) :
-    parseTimestamp .network true 8 (encNat .network 8 t ++ r) = .ok (some t, 8) := by
-  have h8 : t < 256 ^ 8 := by omega
-  unfold parseTimestamp
-  rw [parseNum_enc (by rfl) h8]
-  have hne : (t == 256 ^ 8 - 1) = false := by
-    have : t ≠ 256 ^ 8 - 1 := by omega
-    simpa using this
-  have hdiv : t / 1000 < 2 ^ 32 := by omega
-  have hval : t / 1000 % 2 ^ 32 * 1000 + t % 1000 = t := by
-    rw [Nat.mod_eq_of_lt hdiv]; omega
-  simp only [bind, Except.bind, hne, pure, Except.pure, if_true, hval]
-  rfl
+/-- an SCT timestamp of `datetime`'s range fits the 8-byte field and is not its all-ones value -/
+theorem sctTimestamp_fits {t : Nat} (ht : t / 1000 ≤ maxEpochSeconds) : t < 256 ^ 8 - 1 :=
+  tsSeconds_le_fits8 (ms := true) (by simpa [tsSeconds] using ht)
+
+theorem SctWf.timestamp_not_sentinel {s : Sct} (hw : SctWf s) : s.timestamp ≠ 256 ^ 8 - 1 :=
+  Nat.ne_of_lt (sctTimestamp_fits hw.timestamp)
+
+theorem parseTimestamp_ms_enc {t : Nat} (ht : t / 1000 ≤ maxEpochSeconds) (r : Bytes) :
+    parseTimestamp .network true 8 (encNat .network 8 t ++ r) = .ok (some t, 8) :=
+  parseTimestamp_enc (by rfl) (sctTimestamp_fits ht) (by simpa [tsSeconds] using ht) r
+
+/-- a millisecond value beyond `datetime`'s range (and not the sentinel) does not parse -/
+theorem parseTimestamp_ms_enc_beyond {t : Nat} (hv : t < 256 ^ 8 - 1) (ht : maxEpochSeconds < t / 1000) (r : Bytes) :
+    parseTimestamp .network true 8 (encNat .network 8 t ++ r) = .error .invalidValue :=
+  parseTimestamp_enc_beyond (by rfl) hv (by simpa [tsSeconds] using ht) r
 
 theorem sct_itemRT (s : Sct) (hw : SctWf s) :
     ItemRT parseSct composeSct s ∧ (composeSct s).map (·.length) = .ok (sctSize s) := by
@@ -404,7 +408,7 @@ theorem sct_itemRT (s : Sct) (hw : SctWf s) :
   obtain ⟨a, ha, hal, haa⟩ := codedStrict_rt2 signatureAlgorithms_tableOk halg
   have hoe := parseOpaque_roundTrip ctExtensionsParam_ok.1 ctExtensionsParam_ok.2 ext hemin hemax
   have hos := parseOpaque_roundTrip ctSignatureParam_ok.1 ctSignatureParam_ok.2 sig hsmin hsmax
-  have h8 : ts < 256 ^ 8 := by omega
+  have h8 : ts < 256 ^ 8 := by have := sctTimestamp_fits hts; omega
   -- the blob
   let E : Bytes := encNat .network (vp Gen.vec_CtExtensions).numSize ext.length ++ ext
   let S : Bytes := encNat .network (vp Gen.vec_CtSignature).numSize sig.length ++ sig
@@ -872,23 +876,15 @@ theorem parseKeyShare_ok_wf {bs : Bytes} {e : KeyShare} {n : Nat} (h : parseKeyS
 
 theorem parseTimestamp_ms_ok_inv {rest : Bytes} {t : Option Nat} {n : Nat}
     (h : parseTimestamp .network true 8 rest = .ok (t, n)) :
-    n = 8 ∧ 8 ≤ rest.length ∧ ∀ v, t = some v → v < 2 ^ 32 * 1000 := by
-  unfold parseTimestamp at h
-  obtain ⟨⟨v, n'⟩, h1, h⟩ := exceptBind_ok_inv h
-  simp only at h
-  obtain ⟨hn, hk, _⟩ := parseNum_ok_inv h1
-  subst hn
-  split at h
-  · simp only [pure, Except.pure] at h
-    cases h
-    exact ⟨rfl, hk, fun _ hv => by cases hv⟩
-  · simp only [if_true, pure, Except.pure] at h
-    cases h
-    refine ⟨rfl, hk, fun w hw => ?_⟩
-    cases hw
-    have h1 : v / 1000 % 2 ^ 32 < 2 ^ 32 := Nat.mod_lt _ (by decide)
-    have h2 : v % 1000 < 1000 := Nat.mod_lt _ (by decide)
-    omega
+    n = 8 ∧ 8 ≤ rest.length ∧ ∀ v, t = some v → v / 1000 ≤ maxEpochSeconds := by
+  obtain ⟨hn, hk, _, v, _, ht, hle⟩ := parseTimestamp_ok_inv h
+  refine ⟨hn, hk, fun w hw => ?_⟩
+  subst hw
+  by_cases hs : v = 256 ^ 8 - 1
+  · rw [if_pos hs] at ht; cases ht
+  · rw [if_neg hs] at ht
+    cases ht
+    simpa [tsSeconds] using hle hs
 
 theorem parseSct_ok_wf {bs : Bytes} {s : Sct} {n : Nat} (h : parseSct bs = .ok (s, n)) :
     SctWf s ∧ 0 < n ∧ n ≤ bs.length := by
@@ -946,14 +942,9 @@ theorem parseSct_err {bs : Bytes} {e : PErr} (h : parseSct bs = .error e) : Beni
   · exact parseRaw_benign h2
   simp only at h
   rcases exceptBind_err_inv h with h3 | ⟨⟨ts, c⟩, _, h⟩
-  · unfold parseTimestamp at h3
-    rcases exceptBind_err_inv h3 with h31 | ⟨⟨v, n'⟩, _, h3⟩
+  · rcases parseTimestamp_err_inv h3 with h31 | ⟨h31, _⟩
     · exact (parseNum_sizeErr (by rfl) h31).benign
-    · simp only at h3
-      split at h3
-      · cases h3
-      · simp only [if_true, pure, Except.pure] at h3
-        cases h3
+    · exact .inr h31
   simp only at h
   rcases exceptBind_err_inv h with h4 | ⟨⟨ext, d⟩, _, h⟩
   · exact (parseOpaque_sizeErr ctExtensionsParam_ok.1 h4).benign
@@ -1398,7 +1389,7 @@ instance (e : KeyShare) : Decidable (KeyShareWf e) := by
 
 theorem sctWf_iff (s : Sct) : SctWf s ↔
     (s.version ∈ Gen.CtVersion.memberCodes ∧ s.version < 256 ^ 1 ∧ s.log.length = 32 ∧
-      s.timestamp < 2 ^ 32 * 1000 ∧ (vp Gen.vec_CtExtensions).min ≤ s.extensions.length ∧
+      s.timestamp / 1000 ≤ maxEpochSeconds ∧ (vp Gen.vec_CtExtensions).min ≤ s.extensions.length ∧
       s.extensions.length ≤ (vp Gen.vec_CtExtensions).max ∧
       s.algorithm < Gen.TlsSignatureAndHashAlgorithm.codes.length ∧
       (vp Gen.vec_CtSignature).min ≤ s.signature.length ∧ s.signature.length ≤ (vp Gen.vec_CtSignature).max ∧
